@@ -42,6 +42,7 @@ type EvalCtx struct {
 	fn   *ssa.Function
 	// bound variables get priority
 	depth  int
+	entry  *State // loop-entry state for entry(...)
 	locals *Frame // when set, local variables of this frame are visible by name
 	bound  map[string]bool
 }
@@ -635,6 +636,13 @@ func (c *EvalCtx) call(v *ECall) SV {
 	case "old":
 		o := c.inOld()
 		return o.eval(v.Args[0])
+	case "entry":
+		if c.entry == nil {
+			return c.eval(v.Args[0])
+		}
+		n := *c
+		n.st = c.entry
+		return n.eval(v.Args[0])
 	case "len":
 		x := arg(0)
 		if x.typ != nil {
@@ -688,6 +696,9 @@ func (c *EvalCtx) call(v *ECall) SV {
 			}
 		} else {
 			body = n.boolOf(v.Args[1])
+		}
+		if pats := autoPatterns(body.S, bv.S); useAutoPatterns && pats != "" && v.Fun == "forall" {
+			return SV{t: T{fmt.Sprintf("(forall ((%s %s)) (! %s %s))", bv.S, sort, body.S, pats), SBool}, typ: boolT}
 		}
 		return SV{t: T{fmt.Sprintf("(%s ((%s %s)) %s)", v.Fun, bv.S, sort, body.S), SBool}, typ: boolT}
 	case "typeof":
@@ -773,6 +784,11 @@ func (c *EvalCtx) call(v *ECall) SV {
 	case "implies":
 		return SV{t: implies(c.boolOf(v.Args[0]), c.boolOf(v.Args[1])), typ: boolT}
 	}
+	if gf, ok := c.x.ghostFields[v.Fun]; ok {
+		sort, typ := c.x.ghostSort(gf.Type, c.x.typesPkg(gf.Pkg), c.sf)
+		h := c.st.heap("Gf "+gf.Name, arraySort(SInt, sort))
+		return SV{t: sel(h, argT(0)), typ: typ}
+	}
 	// ghost function
 	if g := c.x.lookupGhost(v.Fun, c.pkg, c.sf); g != nil {
 		return c.applyGhost(g, v)
@@ -802,6 +818,9 @@ func (c *EvalCtx) applyGhost(g *GhostFunc, v *ECall) SV {
 	args := make([]SV, len(v.Args))
 	for i := range v.Args {
 		args[i] = c.eval(v.Args[i])
+	}
+	if g.Body != nil && g.Pure {
+		return c.applyPureGhost(g, gpkg, args)
 	}
 	if g.Body != nil {
 		n := *c
@@ -917,4 +936,151 @@ func xfCmp(op string, a, b T) T {
 		return not(eqv)
 	}
 	panic("xfCmp " + op)
+}
+
+// applyPureGhost: a heap-independent ghost function with a body becomes an SMT
+// function with a defining axiom triggered on its applications.
+func (c *EvalCtx) applyPureGhost(g *GhostFunc, gpkg *types.Package, args []SV) SV {
+	var sorts []string
+	var typs []types.Type
+	for _, p := range g.Params {
+		s, typ := c.x.ghostSort(p.Type, gpkg, c.sf)
+		sorts = append(sorts, s)
+		typs = append(typs, typ)
+	}
+	rs, rtyp := c.x.ghostSort(g.Result, gpkg, c.sf)
+	f := declFun("ghost "+g.Name, sorts, rs)
+	key := "def " + g.Pkg + "::" + g.Name
+	if !axiomSeen[key] && !c.x.definingGhost[key] {
+		c.x.definingGhost[key] = true
+		n := &EvalCtx{x: c.x, st: newState(), env: map[string]SV{}, pkg: gpkg, sf: c.sf}
+		var binders []string
+		var bvs []T
+		for i, p := range g.Params {
+			bv := T{quoteSym("d " + p.Name), sorts[i]}
+			binders = append(binders, "("+bv.S+" "+sorts[i]+")")
+			bvs = append(bvs, bv)
+			n.env[p.Name] = SV{t: bv, typ: typs[i]}
+		}
+		body := n.value(n.eval(g.Body))
+		lhs := app(rs, f, bvs...)
+		if len(bvs) == 0 {
+			lhs = T{f, rs}
+			addAxiom(key, []string{f}, eq(lhs, body).S)
+		} else {
+			addAxiom(key, []string{f}, fmt.Sprintf("(forall (%s) (! (= %s %s) :pattern (%s)))", strings.Join(binders, " "), lhs.S, body.S, lhs.S))
+		}
+		delete(c.x.definingGhost, key)
+	}
+	var ts []T
+	for i, a := range args {
+		var t T
+		if a.isNil && typs[i] != nil {
+			t = zeroOf(typs[i])
+		} else {
+			t = c.value(a)
+		}
+		if t.Sort != sorts[i] {
+			sfail("ghost %s: argument %d has sort %s, want %s", g.Name, i, t.Sort, sorts[i])
+		}
+		ts = append(ts, t)
+	}
+	if len(ts) == 0 {
+		return SV{t: T{f, rs}, typ: rtyp}
+	}
+	return SV{t: app(rs, f, ts...), typ: rtyp}
+}
+
+// autoPatterns proposes E-matching triggers for a quantified body: every
+// array read or uninterpreted application that mentions the bound variable and
+// has no proper subterm that already qualifies.
+var useAutoPatterns = false
+
+func autoPatterns(body string, bv string) string {
+	ps := parseSexps(body)
+	if len(ps) != 1 {
+		return ""
+	}
+	seen := map[string]bool{}
+	var pats []string
+	var walk func(n *sexp) bool // reports whether n mentions bv
+	walk = func(n *sexp) bool {
+		if !n.isL {
+			return n.atom == bv
+		}
+		if len(n.list) == 0 {
+			return false
+		}
+		head := n.list[0]
+		if !head.isL && (head.atom == "forall" || head.atom == "exists" || head.atom == "!") {
+			// do not look inside nested quantifiers for triggers of the outer one
+			return strings.Contains(n.String(), bv)
+		}
+		mentions := false
+		childQualifies := false
+		for _, c := range n.list[1:] {
+			if walk(c) {
+				mentions = true
+				if c.isL && isTriggerHead(c) {
+					childQualifies = true
+				}
+			}
+		}
+		if mentions && isTriggerHead(n) {
+			// prefer the innermost qualifying terms: skip when a child that mentions bv already qualifies
+			inner := false
+			for _, c := range n.list[1:] {
+				if c.isL && strings.Contains(c.String(), bv) && hasTrigger(c, bv) {
+					inner = true
+				}
+			}
+			if !inner {
+				t := n.String()
+				if !seen[t] {
+					seen[t] = true
+					pats = append(pats, t)
+				}
+			}
+		}
+		_ = childQualifies
+		return mentions
+	}
+	walk(ps[0])
+	if len(pats) == 0 || len(pats) > 6 {
+		return ""
+	}
+	var b strings.Builder
+	for _, p := range pats {
+		b.WriteString(":pattern (" + p + ") ")
+	}
+	return strings.TrimSpace(b.String())
+}
+
+func isTriggerHead(n *sexp) bool {
+	if !n.isL || len(n.list) == 0 || n.list[0].isL {
+		return false
+	}
+	h := n.list[0].atom
+	if h == "select" {
+		return true
+	}
+	if _, ok := symbols[h]; ok {
+		return true
+	}
+	return false
+}
+
+func hasTrigger(n *sexp, bv string) bool {
+	if !n.isL {
+		return false
+	}
+	if isTriggerHead(n) && strings.Contains(n.String(), bv) {
+		return true
+	}
+	for _, c := range n.list {
+		if hasTrigger(c, bv) {
+			return true
+		}
+	}
+	return false
 }
